@@ -357,6 +357,11 @@ class Models(object):
 
         weight, log_flux, log_error = source.get_log_fluxes()
 
+        # Points that are only to be plotted (valid == 9) have zero weight, but
+        # their log flux may be NaN or infinite (e.g. non-positive fluxes) and
+        # 0 * NaN would contaminate the sums below, so we blank them here.
+        log_flux[source.valid == 9] = 0.
+
         model_fluxes = self.log_fluxes_mJy
 
         if model_fluxes.ndim == 2:  # Aperture-independent fitting
